@@ -141,7 +141,8 @@ def check_addsub(ctx, kind, c, pdesc, durs):
         if exact and not (got == d):
             ctx.violation("addsub_eq", sig, case, "(p + d) - p == d", impl.sstr(got))
         why = _shape_ok(got)
-        if why:
+        if why and (exact or abs(want) > TOL or why != "mixed signs"):
+            # (float noise around a zero-length difference can borrow a whole day: not judged outside the exact domain)
             ctx.violation("shape", dict(sig, why=why), case, "days/h/m/s only, one sign", impl.sstr(got))
 
 
